@@ -911,9 +911,97 @@ def findings(ctx, model):
         ctx.known_finding(KNOWN_EMPTY, r.get("tag") == 5, "existing empty directory, ok_no_ckpt=False returns the passed-in state")
 
 
+def _targeted(ctx, changed):
+    """panels that exercise exactly the functions whose pinned source changed; each evaluates the PROPERTY on the implementation"""
+    import jax.numpy as jnp
+
+    ctx.extra["search_targets"] = changed
+    if any(c.startswith("IterateData") or c == "create_input_iter" for c in changed):
+        for n in range(1, 9):
+            for b in range(1, n + 1):
+                for train in (True, False):
+                    ctx.count("search:targeted:iter")
+                    r = _oracle_iter({"n": n, "b": b, "train": train, "seed": 17 * n + b, "jnp": bool((n + b) % 2)})
+                    if r is not None:
+                        return r
+    if "FlaxMap.__call__" in changed:
+        import flax_nets
+
+        nets = {name: (name, m, v) for name, m, v in flax_nets.custom_nets()}
+        oracle = _oracle_flaxmap(nets)
+        for key in nets:
+            for shp in [(4, 5), (1, 1), (2, 1), (4, 5, 2), (1, 5, 1), (4, 5, 1), (3, 4, 6), (1, 2, 9), (7, 1, 1), (2, 4, 5, 1), (1, 4, 1, 1), (1, 4, 6, 3)]:
+                ctx.count("search:targeted:flaxmap")
+                x = np.arange(int(np.prod(shp)), dtype=np.float64).reshape(shp) / 4.0
+                r = oracle({"net": key, "xshape": list(shp), "dtype": "float64", "x": x.ravel().tolist()})
+                if r is not None:
+                    return r
+    if any(c.startswith("checkpoint_") for c in changed):
+        panel = [([{"k": "restore", "ok": okf, "cur": 5}], ex) for ex in (False, True) for okf in (True, False)]
+        panel += [([{"k": "save", "step": st, "tag": i + 1} for i, st in enumerate(seq)] + [{"k": "restore", "ok": False, "cur": 0}], False)
+                  for seq in ([3], [1, 2], [1, 2, 3, 4], [2, 5, 9, 11, 20], [0, 1])]
+        for ops, ex in panel:
+            ctx.count("search:targeted:ckpt")
+            r = _oracle_ckpt({"ops": ops, "exists": ex})
+            if r is not None:
+                return r
+    if any(c.endswith("_variables") for c in changed):
+        import flax_nets
+        from scico.flax import load_variables, save_variables
+
+        tmp = tempfile.mkdtemp(prefix="verif_c20_")
+        try:
+            for i in range(6):
+                ctx.count("search:targeted:vars")
+                v = flax_nets.random_var_tree(np.random.default_rng(i), True, True, i % 2 == 0)
+                fn = os.path.join(tmp, f"v{i}.mpk")
+                save_variables(v, fn)
+                r = load_variables(fn)
+                if not flax_nets.tree_equal(r, {"params": v["params"], "batch_stats": v["batch_stats"]}):
+                    return {"keys": list(v), "what": "load_variables(save_variables(v)) != v (params / batch_stats)"}
+        finally:
+            shutil.rmtree(tmp, ignore_errors=True)
+    if any(c.startswith("BasicFlaxTrainer") for c in changed):
+        # the property on the real trainer, no model involved: executed steps = offset..N-1 (offset = latest checkpoint), update_metrics at the
+        # steps with L | s+1 receiving min(L, s+1-offset) entries, checkpoints at spc | s+1, at N and finally, latest step afterwards = N
+        base = {"checkpointing": True, "steps_per_checkpoint": 2, "log": True, "log_every_steps": 4, "steps_per_eval": 2}
+        for (n, b, eps, extra) in [(6, 2, [1, 3], base), (5, 2, [2, 4], {**base, "steps_per_checkpoint": 3, "log_every_steps": 3}),
+                                   (3, 2, [21], {"checkpointing": True, "log": True})]:
+            tmp = tempfile.mkdtemp(prefix="verif_c20_")
+            try:
+                wd = os.path.join(tmp, "wd")
+                latest = 0
+                for ep in eps:
+                    ctx.count("search:targeted:trainer")
+                    impl, _ = _session_impl(extra, n, n, b, ep, wd, None, None, False)
+                    if "err" in impl or "err" in impl["runs"][0]:
+                        return {"n": n, "b": b, "epochs": ep, "conf": extra, "raised": impl.get("err") or impl["runs"][0]["err"]}
+                    r, N, L, spc = impl["runs"][0], (n // b) * ep, impl["log_every"], impl["spc"]
+                    want_steps = list(range(latest, N))
+                    want_w = [[st, min(L, st + 1 - latest)] for st in want_steps if (st + 1) % L == 0]
+                    want_ck = [st + 1 for st in want_steps if (st + 1) % spc == 0 or st + 1 == N] + [max(latest, N)]
+                    if impl["offset"] != latest or r["steps"] != want_steps or r["windows"] != want_w or r["ckpt"] != want_ck or (r["dir"] or [None])[-1] != max(latest, N):
+                        return {"n": n, "b": b, "epochs": ep, "conf": {k: v for k, v in extra.items()}, "latest_before": latest, "offset": impl["offset"],
+                                "executed": r["steps"], "expected_executed": want_steps, "update_metrics": r["windows"], "expected_update_metrics": want_w,
+                                "checkpoints": r["ckpt"], "expected_checkpoints": want_ck, "dir": r["dir"]}
+                    latest = max(latest, N)
+            finally:
+                shutil.rmtree(tmp, ignore_errors=True)
+    return None
+
+
 def search(ctx, model, why):
-    """failing-input search on the implementation only (property oracles)"""
+    """failing-input search on the implementation only (property oracles); after a broken generated obligation the functions whose
+    pinned source changed are exercised first (targeted panels)"""
     common.setup_scico()
+    if why and "FlaxTables" in str(why.get("module", "")):
+        import cache_translate
+        import flax_translate
+
+        changed = cache_translate.changed_rows(common.REPO, flax_translate.PINNED, common.VERIF / "lean" / "Scico" / "Model" / "Flax.lean")
+        r = _targeted(ctx, changed)
+        if r is not None:
+            return r
     for _ in range(ctx.n(10, 60)):
         n = int(ctx.rng.integers(1, 120))
         b = int(ctx.rng.integers(1, n + 1))
